@@ -69,7 +69,8 @@ fn observe(r: &ctap1::Result<ctap1::Request<'_>>, p1: u8, data: &[u8]) -> (Exp, 
     }
 }
 
-/// body encodings per ISO 7816-4: 0 short/no Le, 1 short/Le, 2 extended/no Le, 3 extended/Le
+/// body encodings per ISO 7816-4: 0 short/no Le, 1 short/Le=256, 2 extended/no Le, 3 extended/Le=65536,
+/// 4 short/Le=1, 5 extended/Le=0x0102
 pub fn body(data: &[u8], enc: u8) -> Option<Vec<u8>> {
     let n = data.len();
     let mut b = Vec::with_capacity(n + 5);
@@ -101,7 +102,7 @@ pub fn body(data: &[u8], enc: u8) -> Option<Vec<u8>> {
             b.extend_from_slice(&(n as u16).to_be_bytes());
             b.extend_from_slice(data);
         }
-        _ => {
+        3 => {
             b.push(0);
             if n > 0 {
                 b.extend_from_slice(&(n as u16).to_be_bytes());
@@ -109,7 +110,29 @@ pub fn body(data: &[u8], enc: u8) -> Option<Vec<u8>> {
             }
             b.extend_from_slice(&[0x00, 0x00]); // Le = 65536
         }
+        4 => {
+            // short with Le = 1
+            if n > 255 {
+                return None;
+            }
+            if n > 0 {
+                b.push(n as u8);
+                b.extend_from_slice(data);
+            }
+            b.push(0x01);
+        }
+        _ => {
+            // extended with Le = 0x0102
+            b.push(0);
+            if n > 0 {
+                b.extend_from_slice(&(n as u16).to_be_bytes());
+                b.extend_from_slice(data);
+            }
+            b.extend_from_slice(&[0x01, 0x02]);
+        }
     }
+    // encodings whose body would be re-read by ISO 7816-4 as another case are not valid encodings
+    // of (data, Le) and are left out: a short Le byte equal to 1 + n with n = 0 is case 2S (fine)
     Some(b)
 }
 
@@ -132,7 +155,7 @@ pub fn shapes() -> Vec<Shape> {
             if len > 64 {
                 data[64] = d64;
             }
-            for enc in 0..4u8 {
+            for enc in 0..6u8 {
                 if let Some(b) = body(&data, enc) {
                     out.push(Shape { data: data.clone(), enc, body: b });
                 }
@@ -266,10 +289,9 @@ pub fn replay(case: &Value) -> Verdict {
     let enc = case["encoding"].as_u64().unwrap() as u8;
     let off = 4 + match (enc, n) {
         (_, 0) => 0,
-        (0, _) | (1, _) => 1,
+        (0, _) | (1, _) | (4, _) => 1,
         _ => 3,
     };
-    let off = if enc == 3 && n == 0 { 4 } else { off };
     let data = bytes[off..off + n].to_vec();
     if case["owned"].as_bool().unwrap_or(false) {
         check_owned(cla, ins, p1, &data, &bytes)
